@@ -25,6 +25,7 @@ fn bogus_entry() -> BoxedStrategy<Entry> {
         2 => any::<u16>().prop_map(Entry::AlteredSalt),
         2 => any::<u16>().prop_map(Entry::AlteredName),
         2 => any::<u16>().prop_map(Entry::AlteredValue),
+        2 => any::<u16>().prop_map(Entry::AlteredTail),
         3 => (any::<u16>(), 0u8..3).prop_map(|(i, k)| Entry::Reserialised(i, k)),
         4 => (0u8..8, v(), any::<bool>()).prop_map(|(name, value, real_salt)| Entry::Forged3 { name, value, real_salt }),
         2 => v().prop_map(|value| Entry::Forged2 { value }),
